@@ -1447,7 +1447,7 @@ class VacancyMediated(object):
                            [self.GFstarset.states[s[0]] for s in self.GFstarset.stars]])
             self.GFvalues[vTK] = GF.copy()
             self.Lvvvalues[vTK] = L0vv.copy()
-            self.etavvalues[vTK] = etav
+            self.etavvalues[vTK] = etav.copy()
 
         # 2. set up probabilities for solute-vacancy configurations
         probVsites = np.array([np.exp(min(bFV) - bFV[wi]) for wi in self.invmap])
